@@ -1,12 +1,916 @@
-// Package c11: correspondence harness of C11 (stub: replaced when C11 is built).
+// Package c11: name conflicts and duplicates (typesMap.SetFuncName with -autoname/-dedup).
+//
+// (S1) in-process, through the verif hook: every sequence of up to K calls over
+// 2 plugins x 3 names x 3 pairwise non-assignable argument type lists, under the four flag
+// combinations and two reserved sets, driven against the real typesMap; names returned,
+// errors and final tables are written out and compared exactly with the Coq model.
+// (B) end to end: sampled packages from the same space plus larger random ones with injected
+// collisions are run through the goderive binary (on scratch copies: the flags make goderive
+// rewrite user sources); exit status, call-site names, generated functions, type-check of the
+// result and parameter types at every call site are observed.
 package c11
 
 import (
+	"bufio"
 	"fmt"
+	"go/ast"
+	"go/importer"
+	"go/parser"
+	"go/token"
+	"go/types"
+	"os"
+	"path/filepath"
+	"regexp"
+	"sort"
+	"strings"
+	"sync"
+
+	"github.com/awalterschulze/goderive/derive"
 
 	"verifharness/internal/hx"
 )
 
+// TypeList is one argument type list of the pool, with the identifier newName derives from it.
+type TypeList struct {
+	Typs []types.Type
+	Hint string
+}
+
+// Call is one derive call: plugin index, spelled name, pool index of its argument types.
+type Call struct {
+	P    int
+	Name string
+	T    int
+}
+
+// Ctx is the context part of an observation line.
+type Ctx struct {
+	Pool     []TypeList
+	Prefixes []string
+	Reserved []string
+}
+
+// HintOf mirrors the identifier newName takes from typs[0] (named type: its name; the listed
+// basic kinds: their spelling; otherwise empty).
+func HintOf(typs []types.Type) string {
+	if len(typs) == 0 {
+		return ""
+	}
+	switch t := typs[0].(type) {
+	case *types.Named:
+		return t.Obj().Name()
+	case *types.Basic:
+		switch t.Kind() {
+		case types.Bool, types.Int, types.Int8, types.Int16, types.Int32, types.Int64,
+			types.Uint, types.Uint8, types.Uint16, types.Uint32, types.Uint64,
+			types.Float32, types.Float64, types.String:
+			return t.Name()
+		}
+	}
+	return ""
+}
+
+// Sexp renders the context: hints, the eq matrix as go/types computes it, prefixes, reserved.
+func (c *Ctx) Sexp() string {
+	var b strings.Builder
+	b.WriteString("(ctx (hints")
+	for _, t := range c.Pool {
+		if t.Hint == "" {
+			b.WriteString(" ()")
+		} else {
+			b.WriteString(" (" + t.Hint + ")")
+		}
+	}
+	b.WriteString(") (teq")
+	for _, x := range c.Pool {
+		b.WriteString(" (")
+		for j, y := range c.Pool {
+			if j > 0 {
+				b.WriteByte(' ')
+			}
+			if derive.VerifTypesEq(x.Typs, y.Typs) {
+				b.WriteByte('1')
+			} else {
+				b.WriteByte('0')
+			}
+		}
+		b.WriteByte(')')
+	}
+	b.WriteString(") (prefixes (" + strings.Join(c.Prefixes, " ") + ")) (reserved (" + strings.Join(c.Reserved, " ") + ")))")
+	return b.String()
+}
+
+func CallsSexp(calls []Call) string {
+	var b strings.Builder
+	b.WriteByte('(')
+	for i, c := range calls {
+		if i > 0 {
+			b.WriteByte(' ')
+		}
+		fmt.Fprintf(&b, "(%d %s %d)", c.P, c.Name, c.T)
+	}
+	b.WriteByte(')')
+	return b.String()
+}
+
+var reDup = regexp.MustCompile(`= \((\S+) \| (\S+)\)\s*$`)
+var reConflict = regexp.MustCompile(`conflicting function names (\w+)\(`)
+
+// ErrSexp classifies an error of SetFuncName (index -1: not observable).
+func ErrSexp(i int, msg string) string {
+	msg = strings.TrimSpace(msg)
+	if strings.Contains(msg, "ambig") {
+		if m := reDup.FindStringSubmatch(msg); m != nil {
+			return fmt.Sprintf("(err %d dup %s %s)", i, m[1], m[2])
+		}
+	}
+	if m := reConflict.FindStringSubmatch(msg); m != nil {
+		return fmt.Sprintf("(err %d conflict %s)", i, m[1])
+	}
+	return fmt.Sprintf("(err %d unknown)", i)
+}
+
+func poolIndex(pool []TypeList, typs []types.Type) int {
+	for i, t := range pool {
+		if len(t.Typs) != len(typs) {
+			continue
+		}
+		same := true
+		for j := range typs {
+			if t.Typs[j] != typs[j] {
+				same = false
+			}
+		}
+		if same {
+			return i
+		}
+	}
+	return -1
+}
+
+// RunReal drives fresh typesMaps (one per prefix, sharing the reserved set as newPackage does)
+// through the calls and renders the outcome.
+func RunReal(c *Ctx, autoname, dedup bool, calls []Call) string {
+	reserved := map[string]struct{}{}
+	for _, r := range c.Reserved {
+		reserved[r] = struct{}{}
+	}
+	tms := make([]derive.TypesMap, len(c.Prefixes))
+	for i, p := range c.Prefixes {
+		tms[i] = derive.VerifNewTypesMap(nil, p, reserved, autoname, dedup)
+	}
+	names := make([]string, 0, len(calls))
+	for i, cl := range calls {
+		n, err := tms[cl.P].SetFuncName(cl.Name, c.Pool[cl.T].Typs...)
+		if err != nil {
+			return ErrSexp(i, err.Error())
+		}
+		names = append(names, n)
+	}
+	var b strings.Builder
+	b.WriteString("(ok (" + strings.Join(names, " ") + ") (")
+	for i, tm := range tms {
+		if i > 0 {
+			b.WriteByte(' ')
+		}
+		b.WriteByte('(')
+		for j, typs := range tm.ToGenerate() {
+			if j > 0 {
+				b.WriteByte(' ')
+			}
+			fmt.Fprintf(&b, "(%s %d)", tm.GetFuncName(typs...), poolIndex(c.Pool, typs))
+		}
+		b.WriteByte(')')
+	}
+	b.WriteString("))")
+	return b.String()
+}
+
+var flagCombos = [4][2]bool{{false, false}, {true, false}, {false, true}, {true, true}}
+
+func b01(b bool) int {
+	if b {
+		return 1
+	}
+	return 0
+}
+
+// Line renders one S1 observation: the four flag combinations of one call sequence.
+func Line(kind string, c *Ctx, ctxS string, calls []Call, run func(a, d bool) string) string {
+	var b strings.Builder
+	b.WriteString("(" + kind + " " + ctxS + " " + CallsSexp(calls) + " (")
+	for i, f := range flagCombos {
+		if i > 0 {
+			b.WriteByte(' ')
+		}
+		fmt.Fprintf(&b, "(%d %d %s)", b01(f[0]), b01(f[1]), run(f[0], f[1]))
+	}
+	b.WriteString("))")
+	return b.String()
+}
+
+// S1Pool: three pairwise non-assignable one-element type lists with the three kinds of hint.
+func S1Pool() []TypeList {
+	pkg := types.NewPackage("p", "p")
+	a := types.NewNamed(types.NewTypeName(token.NoPos, pkg, "A", nil), types.NewStruct(nil, nil), nil)
+	ls := [][]types.Type{
+		{a},
+		{types.Typ[types.Int]},
+		{types.NewSlice(types.Typ[types.String])},
+	}
+	var pool []TypeList
+	for _, l := range ls {
+		pool = append(pool, TypeList{l, HintOf(l)})
+	}
+	return pool
+}
+
 func Run(cfg hx.Config) (*hx.Meta, error) {
-	return nil, fmt.Errorf("C11: harness not built yet")
+	meta := &hx.Meta{Property: "C11", Seed: cfg.Seed, Tier: cfg.Tier}
+	if err := runS1(cfg, meta); err != nil {
+		return nil, err
+	}
+	if err := runE2E(cfg, meta); err != nil {
+		return nil, err
+	}
+	return meta, nil
+}
+
+// ---------------------------------------------------------------------------------------
+// (S1) exhaustive in-process enumeration
+// ---------------------------------------------------------------------------------------
+
+func runS1(cfg hx.Config, meta *hx.Meta) error {
+	pool := S1Pool()
+	prefixes := []string{"deriveEqual", "deriveCompare"}
+	var options []Call
+	for p, pre := range prefixes {
+		for _, n := range []string{pre, pre + "_", pre + "_A"} {
+			for t := range pool {
+				options = append(options, Call{p, n, t})
+			}
+		}
+	}
+	reservedVariants := [][]string{
+		{},
+		{"deriveEqual_i", "deriveEqual_1", "deriveCompare_i", "deriveCompare_A2"},
+	}
+	maxK := 4
+	if cfg.Tier == "thorough" {
+		maxK = 5
+	}
+	// corpus first
+	if seqs, err := readCorpus(cfg.Corpus); err == nil && len(seqs) > 0 {
+		path := filepath.Join(cfg.Out, "s1-corpus.obs")
+		f, err := os.Create(path)
+		if err != nil {
+			return err
+		}
+		w := bufio.NewWriter(f)
+		for _, s := range seqs {
+			c := &Ctx{Pool: pool, Prefixes: prefixes, Reserved: s.reserved}
+			fmt.Fprintln(w, Line("pkg", c, c.Sexp(), s.calls, func(a, d bool) string { return RunReal(c, a, d, s.calls) }))
+			meta.Count("s1/corpus")
+		}
+		w.Flush()
+		f.Close()
+		meta.ObsFiles = append(meta.ObsFiles, path)
+	}
+	n := len(options)
+	var mu sync.Mutex
+	var firstErr error
+	counts := make([]int, n)
+	// one shard per first call; every shard enumerates all continuations up to maxK calls
+	hx.Parallel(n, 16, func(first int) {
+		path := filepath.Join(cfg.Out, fmt.Sprintf("s1-%02d.obs", first))
+		f, err := os.Create(path)
+		if err != nil {
+			mu.Lock()
+			firstErr = err
+			mu.Unlock()
+			return
+		}
+		w := bufio.NewWriterSize(f, 1<<20)
+		ctxs := make([]*Ctx, len(reservedVariants))
+		ctxS := make([]string, len(reservedVariants))
+		for i, rv := range reservedVariants {
+			ctxs[i] = &Ctx{Pool: pool, Prefixes: prefixes, Reserved: rv}
+			ctxS[i] = ctxs[i].Sexp()
+		}
+		seq := []Call{options[first]}
+		var rec func()
+		rec = func() {
+			for i, c := range ctxs {
+				if i > 0 && len(seq) == 5 {
+					continue // the 5-call level is enumerated for the empty reserved set only
+				}
+				calls := seq
+				fmt.Fprintln(w, Line("pkg", c, ctxS[i], calls, func(a, d bool) string { return RunReal(c, a, d, calls) }))
+				counts[first]++
+			}
+			if len(seq) == maxK {
+				return
+			}
+			for _, o := range options {
+				seq = append(seq, o)
+				rec()
+				seq = seq[:len(seq)-1]
+			}
+		}
+		rec()
+		w.Flush()
+		f.Close()
+		mu.Lock()
+		meta.ObsFiles = append(meta.ObsFiles, path)
+		mu.Unlock()
+	})
+	if firstErr != nil {
+		return firstErr
+	}
+	// nested prefixes: the fresh names of plugin 0 (deriveEq, deriveEq_, deriveEq_A, ...) are the
+	// user-spelled names of plugin 1; they only stay apart because every registration is
+	// recorded in the reserved set the typesMaps of a package share
+	{
+		nested := []string{"deriveEq", "deriveEq_"}
+		var opts []Call
+		for p, pre := range nested {
+			for _, n := range []string{pre, pre + "_", pre + "_A"} {
+				for t := range pool {
+					opts = append(opts, Call{p, n, t})
+				}
+			}
+		}
+		c := &Ctx{Pool: pool, Prefixes: nested, Reserved: []string{}}
+		cs := c.Sexp()
+		path := filepath.Join(cfg.Out, "s1-nested.obs")
+		f, err := os.Create(path)
+		if err != nil {
+			return err
+		}
+		w := bufio.NewWriterSize(f, 1<<20)
+		nn := 0
+		var seq []Call
+		var rec func()
+		rec = func() {
+			if len(seq) > 0 {
+				calls := seq
+				fmt.Fprintln(w, Line("pkg", c, cs, calls, func(a, d bool) string { return RunReal(c, a, d, calls) }))
+				nn++
+			}
+			if len(seq) == maxK-1 {
+				return
+			}
+			for _, o := range opts {
+				seq = append(seq, o)
+				rec()
+				seq = seq[:len(seq)-1]
+			}
+		}
+		rec()
+		w.Flush()
+		f.Close()
+		meta.ObsFiles = append(meta.ObsFiles, path)
+		meta.Cases += nn
+		meta.Count(fmt.Sprintf("s1/nested prefixes, sequences<=%d calls=%d", maxK-1, nn))
+	}
+	total := 0
+	for _, c := range counts {
+		total += c
+	}
+	meta.Cases += total
+	meta.Count(fmt.Sprintf("s1/sequences<=%d calls x %d reserved sets (x4 flag combinations each)=%d", maxK, len(reservedVariants), total))
+	c := &Ctx{Pool: pool, Prefixes: prefixes, Reserved: reservedVariants[1]}
+	ex := []Call{{0, "deriveEqual", 0}, {0, "deriveEqual", 1}, {0, "deriveEqual_", 1}, {1, "deriveCompare", 2}}
+	meta.Sample(hx.Truncate(Line("pkg", c, c.Sexp(), ex, func(a, d bool) string { return RunReal(c, a, d, ex) }), 900))
+	return nil
+}
+
+type corpusSeq struct {
+	reserved []string
+	calls    []Call
+}
+
+// corpus lines: `reserved,names | p:name:t p:name:t ...` (# comments)
+func readCorpus(dir string) ([]corpusSeq, error) {
+	b, err := os.ReadFile(filepath.Join(dir, "sequences.txt"))
+	if err != nil {
+		return nil, err
+	}
+	var out []corpusSeq
+	for _, line := range strings.Split(string(b), "\n") {
+		line = strings.TrimSpace(line)
+		if line == "" || strings.HasPrefix(line, "#") {
+			continue
+		}
+		parts := strings.SplitN(line, "|", 2)
+		if len(parts) != 2 {
+			continue
+		}
+		var s corpusSeq
+		for _, r := range strings.Split(strings.TrimSpace(parts[0]), ",") {
+			if r != "" {
+				s.reserved = append(s.reserved, r)
+			}
+		}
+		if s.reserved == nil {
+			s.reserved = []string{}
+		}
+		for _, c := range strings.Fields(parts[1]) {
+			var p, t int
+			f := strings.Split(c, ":")
+			if len(f) != 3 {
+				continue
+			}
+			fmt.Sscanf(f[0], "%d", &p)
+			fmt.Sscanf(f[2], "%d", &t)
+			s.calls = append(s.calls, Call{p, f[1], t})
+		}
+		out = append(out, s)
+	}
+	return out, nil
+}
+
+// ---------------------------------------------------------------------------------------
+// (B) end to end through the goderive binary
+// ---------------------------------------------------------------------------------------
+
+// e2e pool: pairwise non-assignable types for which equal and compare need no helper functions.
+type e2eType struct {
+	goType string // spelling in the user file
+	hint   string
+}
+
+var e2ePool = []e2eType{
+	{"N", "N"},
+	{"int", "int"},
+	{"[]string", ""},
+	{"string", "string"},
+	{"[2]string", ""},
+	{"bool", "bool"},
+	{"float64", "float64"},
+}
+
+var e2ePrefixes = []string{"deriveEqual", "deriveCompare"}
+
+type e2ePkg struct {
+	id       int
+	ntypes   int // pool restricted to the first ntypes entries
+	reserved []string
+	calls    []Call
+	class    string
+}
+
+func (p *e2ePkg) source() string {
+	var b strings.Builder
+	b.WriteString("package p\n\ntype N int\n\ntype F float64\n\n")
+	for _, r := range p.reserved {
+		// a user function with a derive-like name that the user calls: its name is reserved
+		fmt.Fprintf(&b, "func %s(a, b int) int { return a + b }\n\n", r)
+	}
+	b.WriteString("func use(")
+	for i := 0; i < p.ntypes; i++ {
+		if i > 0 {
+			b.WriteString(", ")
+		}
+		fmt.Fprintf(&b, "x%d, y%d %s", i, i, e2ePool[i].goType)
+	}
+	b.WriteString(") {\n")
+	for _, c := range p.calls {
+		fmt.Fprintf(&b, "\t_ = %s(x%d, y%d)\n", c.Name, c.T, c.T)
+	}
+	for _, r := range p.reserved {
+		fmt.Fprintf(&b, "\t_ = %s(1, 2)\n", r)
+	}
+	b.WriteString("}\n")
+	return b.String()
+}
+
+func (p *e2ePkg) ctxSexp() string {
+	var b strings.Builder
+	b.WriteString("(ctx (hints")
+	for i := 0; i < p.ntypes; i++ {
+		if e2ePool[i].hint == "" {
+			b.WriteString(" ()")
+		} else {
+			b.WriteString(" (" + e2ePool[i].hint + ")")
+		}
+	}
+	b.WriteString(") (teq")
+	for i := 0; i < p.ntypes; i++ {
+		b.WriteString(" (")
+		for j := 0; j < p.ntypes; j++ {
+			if j > 0 {
+				b.WriteByte(' ')
+			}
+			b.WriteString(fmt.Sprint(b01(i == j)))
+		}
+		b.WriteByte(')')
+	}
+	b.WriteString(") (prefixes (" + strings.Join(e2ePrefixes, " ") + ")) (reserved (" + strings.Join(p.reserved, " ") + ")))")
+	return b.String()
+}
+
+// clash predicates, computed independently of the model (per plugin)
+func clashes(calls []Call) (conflict, dup bool) {
+	type key struct {
+		p int
+		s string
+	}
+	byName := map[key]map[int]bool{}
+	byType := map[[2]int]map[string]bool{}
+	for _, c := range calls {
+		k := key{c.P, c.Name}
+		if byName[k] == nil {
+			byName[k] = map[int]bool{}
+		}
+		byName[k][c.T] = true
+		t := [2]int{c.P, c.T}
+		if byType[t] == nil {
+			byType[t] = map[string]bool{}
+		}
+		byType[t][c.Name] = true
+	}
+	for _, s := range byName {
+		if len(s) > 1 {
+			conflict = true
+		}
+	}
+	for _, s := range byType {
+		if len(s) > 1 {
+			dup = true
+		}
+	}
+	return
+}
+
+var srcImporterMu sync.Mutex
+var srcImporter types.Importer
+var srcFset = token.NewFileSet()
+
+func checkTypes(dir string, files []string) (*types.Info, []*ast.File, *token.FileSet, error) {
+	fset := token.NewFileSet()
+	var afs []*ast.File
+	for _, f := range files {
+		af, err := parser.ParseFile(fset, filepath.Join(dir, f), nil, 0)
+		if err != nil {
+			return nil, nil, nil, err
+		}
+		afs = append(afs, af)
+	}
+	info := &types.Info{Uses: map[*ast.Ident]types.Object{}, Types: map[ast.Expr]types.TypeAndValue{}}
+	srcImporterMu.Lock()
+	if srcImporter == nil {
+		srcImporter = importer.ForCompiler(srcFset, "source", nil)
+	}
+	conf := types.Config{Importer: lockedImporter{}}
+	srcImporterMu.Unlock()
+	_, err := conf.Check("p", fset, afs, info)
+	return info, afs, fset, err
+}
+
+type lockedImporter struct{}
+
+func (lockedImporter) Import(path string) (*types.Package, error) {
+	srcImporterMu.Lock()
+	defer srcImporterMu.Unlock()
+	return srcImporter.Import(path)
+}
+
+var e2eTypeIndex = func() map[string]int {
+	m := map[string]int{}
+	for i, t := range e2ePool {
+		m[t.goType] = i
+	}
+	return m
+}()
+
+func pluginOf(name string) int {
+	best, bl := -1, -1
+	for i, p := range e2ePrefixes {
+		if strings.HasPrefix(name, p) && len(p) > bl {
+			best, bl = i, len(p)
+		}
+	}
+	return best
+}
+
+func runE2E(cfg hx.Config, meta *hx.Meta) error {
+	r := hx.NewRand(cfg.Seed ^ 0xC11)
+	nSmall, nLarge, vetEvery := 120, 60, 6
+	if cfg.Tier == "thorough" {
+		nSmall, nLarge, vetEvery = 1400, 600, 4
+	}
+	var pkgs []*e2ePkg
+	names := func(p int) []string {
+		pre := e2ePrefixes[p]
+		return []string{pre, pre + "_", pre + "_N"}
+	}
+	// corpus sequences also run end to end (types 0..2 of the e2e pool, same names except _A -> _N)
+	if seqs, err := readCorpus(cfg.Corpus); err == nil {
+		for _, s := range seqs {
+			ok := true
+			var calls []Call
+			for _, c := range s.calls {
+				c.Name = strings.Replace(c.Name, "_A", "_N", 1)
+				calls = append(calls, c)
+			}
+			var res []string
+			for _, x := range s.reserved {
+				if pluginOf(x) < 0 {
+					ok = false
+				}
+				res = append(res, x)
+			}
+			if ok {
+				pkgs = append(pkgs, &e2ePkg{ntypes: 3, reserved: res, calls: calls, class: "corpus"})
+			}
+		}
+	}
+	// the S1 space, sampled: up to 4 (thorough 5) calls over 2 plugins x 3 names x 3 types
+	for i := 0; i < nSmall; i++ {
+		k := 2 + r.Intn(3)
+		if cfg.Tier == "thorough" {
+			k = 2 + r.Intn(4)
+		}
+		p := &e2ePkg{ntypes: 3, class: fmt.Sprintf("small/k=%d", k)}
+		if r.Intn(3) == 0 {
+			p.reserved = []string{"deriveEqual_i", "deriveEqual_1", "deriveCompare_i", "deriveCompare_N2"}
+		}
+		for j := 0; j < k; j++ {
+			pl := r.Intn(2)
+			p.calls = append(p.calls, Call{pl, hx.Pick(r, names(pl)), r.Intn(3)})
+		}
+		pkgs = append(pkgs, p)
+	}
+	// larger random packages with injected collisions
+	for i := 0; i < nLarge; i++ {
+		k := 6 + r.Intn(14)
+		nt := 4 + r.Intn(len(e2ePool)-3)
+		p := &e2ePkg{ntypes: nt, class: "large"}
+		suffixes := []string{"", "_", "_N", "_i", "_in", "_int", "_1", "_2", "X", "Y", "_s", "_N2"}
+		var resv []string
+		if r.Bool() {
+			for _, s := range []string{"_", "_N", "_i", "_1", "_s", "Z"} {
+				if r.Intn(3) == 0 {
+					resv = append(resv, hx.Pick(r, e2ePrefixes)+"R"+strings.TrimPrefix(s, "_"))
+				}
+			}
+			// reserved names that collide with fresh-name candidates (never user-spelled derive calls)
+			for _, s := range []string{"_3", "_N3", "_int4", "_st"} {
+				if r.Intn(2) == 0 {
+					resv = append(resv, hx.Pick(r, e2ePrefixes)+s)
+				}
+			}
+		}
+		sort.Strings(resv)
+		resv = uniq(resv)
+		p.reserved = resv
+		for j := 0; j < k; j++ {
+			pl := r.Intn(2)
+			c := Call{pl, e2ePrefixes[pl] + hx.Pick(r, suffixes), r.Intn(nt)}
+			if len(p.calls) > 0 && r.Intn(3) == 0 {
+				// injected collision with an earlier call of the same plugin
+				o := hx.Pick(r, p.calls)
+				switch r.Intn(3) {
+				case 0: // conflict: same name, other type
+					c = Call{o.P, o.Name, r.Intn(nt)}
+				case 1: // duplicate: other name, same type
+					c = Call{o.P, e2ePrefixes[o.P] + hx.Pick(r, suffixes), o.T}
+				default: // repetition
+					c = o
+				}
+			}
+			p.calls = append(p.calls, c)
+		}
+		pkgs = append(pkgs, p)
+	}
+	for i, p := range pkgs {
+		p.id = i
+		if p.reserved == nil {
+			p.reserved = []string{}
+		}
+	}
+	lines := make([]string, len(pkgs))
+	var runs int
+	var mu sync.Mutex
+	hx.Parallel(len(pkgs), 12, func(i int) {
+		p := pkgs[i]
+		src := p.source()
+		line := Line("e2e", nil, p.ctxSexp(), p.calls, func(a, d bool) string {
+			dir := filepath.Join(cfg.Work, fmt.Sprintf("e2e-%d-%d%d", p.id, b01(a), b01(d)))
+			res, n := e2eRun(cfg, meta, p, src, dir, a, d, (p.id%vetEvery) == 0)
+			mu.Lock()
+			runs += n
+			mu.Unlock()
+			os.RemoveAll(dir)
+			return res
+		})
+		lines[i] = line
+		cf, du := clashes(p.calls)
+		meta.CountSafe(fmt.Sprintf("e2e/%s conflict=%v dup=%v", strings.SplitN(p.class, "/", 2)[0], cf, du))
+	})
+	path := filepath.Join(cfg.Out, "e2e.obs")
+	if err := os.WriteFile(path, []byte(strings.Join(lines, "\n")+"\n"), 0o644); err != nil {
+		return err
+	}
+	meta.ObsFiles = append(meta.ObsFiles, path)
+	meta.Packages += len(pkgs)
+	meta.GoderiveRuns += runs
+	meta.Cases += len(pkgs)
+	for _, l := range lines {
+		if strings.Contains(l, "conflict") && strings.Contains(l, "(ok") {
+			meta.Sample(hx.Truncate(l, 900))
+			break
+		}
+	}
+	return nil
+}
+
+func uniq(l []string) []string {
+	var out []string
+	for i, s := range l {
+		if i == 0 || s != l[i-1] {
+			out = append(out, s)
+		}
+	}
+	return out
+}
+
+var rePanic = regexp.MustCompile(`(?m)^(panic:|goroutine \d+ \[|fatal error:)`)
+
+// e2eRun runs goderive with the flags on a scratch copy of the package and renders the outcome
+// in the format of RunReal (error index -1); violations the harness can decide alone are
+// recorded as direct findings.
+func e2eRun(cfg hx.Config, meta *hx.Meta, p *e2ePkg, src, dir string, a, d, vet bool) (string, int) {
+	if err := hx.Module(dir); err != nil {
+		return "(harness-error)", 0
+	}
+	if err := os.WriteFile(filepath.Join(dir, "a.go"), []byte(src), 0o644); err != nil {
+		return "(harness-error)", 0
+	}
+	var args []string
+	if a {
+		args = append(args, "-autoname")
+	}
+	if d {
+		args = append(args, "-dedup")
+	}
+	args = append(args, ".")
+	cmd := "goderive " + strings.Join(args, " ")
+	g := hx.Goderive(cfg.Goderive, dir, args...)
+	files := map[string]string{"go.mod": "module p\n\ngo 1.24\n", "a.go": src}
+	direct := func(class, what, out string) {
+		f := map[string]string{}
+		for k, v := range files {
+			f[k] = v
+		}
+		if after, err := os.ReadFile(filepath.Join(dir, "a.go")); err == nil && string(after) != src {
+			f["a.go.after"] = string(after)
+		}
+		if gen, err := os.ReadFile(filepath.Join(dir, "derived.gen.go")); err == nil {
+			f["derived.gen.go"] = string(gen)
+		}
+		meta.AddDirect(hx.Direct{Class: class, What: what, Files: f, Cmd: cmd, Output: hx.Truncate(out, 3000)})
+	}
+	if g.TimedOut || rePanic.MatchString(g.Out) {
+		direct("c11-crash", "goderive crashed or hung on a package with name clashes", g.Out)
+		return "(crash)", 1
+	}
+	conflict, dup := clashes(p.calls)
+	if g.Exit != 0 {
+		// independent exit-status predicate
+		bad := ""
+		switch {
+		case !a && !d && !conflict && !dup:
+			bad = "fails without flags although no name has two type lists and no type list two names"
+		case a && d:
+			bad = "fails although both -autoname and -dedup are set"
+		case !conflict && !dup:
+			bad = "fails on a package without any clash"
+		}
+		if bad != "" {
+			direct("c11-exit-status", "goderive "+bad, g.Out)
+		}
+		last := ""
+		for _, l := range strings.Split(strings.TrimSpace(g.Out), "\n") {
+			if !strings.HasPrefix(l, "changing function call name") {
+				last = l
+			}
+		}
+		if i := strings.Index(last, "Add Error: "); i >= 0 {
+			last = last[i+len("Add Error: "):]
+			if j := strings.Index(last, ": "); j >= 0 {
+				last = last[j+2:] // drop the plugin name
+			}
+		}
+		return ErrSexp(-1, last), 1
+	}
+	bad := ""
+	switch {
+	case !a && !d && (conflict || dup):
+		bad = "succeeds without flags although the package has a conflict or a duplicate"
+	case a && !d && dup && !conflict:
+		bad = "succeeds with -autoname alone on a package whose only clashes are duplicates"
+	case !a && d && conflict && !dup:
+		bad = "succeeds with -dedup alone on a package whose only clashes are conflicts"
+	}
+	if bad != "" {
+		direct("c11-exit-status", "goderive "+bad, g.Out)
+	}
+	// the package must type-check, and every call site must invoke a function whose parameters
+	// are exactly its argument types
+	info, afs, _, err := checkTypes(dir, []string{"a.go", "derived.gen.go"})
+	if err != nil {
+		direct("c11-typecheck", "goderive exit 0 but the package does not type-check", err.Error())
+		return "(typecheck-failed)", 1
+	}
+	var names []string
+	nres := 0
+	ast.Inspect(afs[0], func(n ast.Node) bool {
+		as, ok := n.(*ast.AssignStmt)
+		if !ok || len(as.Rhs) != 1 {
+			return true
+		}
+		call, ok := as.Rhs[0].(*ast.CallExpr)
+		if !ok {
+			return true
+		}
+		id, ok := call.Fun.(*ast.Ident)
+		if !ok {
+			return true
+		}
+		if len(names) >= len(p.calls) {
+			nres++
+			return true
+		}
+		names = append(names, id.Name)
+		fn, _ := info.Uses[id].(*types.Func)
+		if fn == nil {
+			direct("c11-callsite-types", "call site "+id.Name+" does not resolve to a function", "")
+			return true
+		}
+		sig := fn.Type().(*types.Signature)
+		if sig.Params().Len() != len(call.Args) {
+			direct("c11-callsite-types", "call site "+id.Name+": arity differs", sig.String())
+			return true
+		}
+		for k, arg := range call.Args {
+			if !types.Identical(sig.Params().At(k).Type(), info.Types[arg].Type) {
+				direct("c11-callsite-types", fmt.Sprintf("call site %s: parameter %d of the generated function has type %s, the argument %s",
+					id.Name, k, sig.Params().At(k).Type(), info.Types[arg].Type), sig.String())
+			}
+		}
+		return true
+	})
+	// generated functions, grouped by plugin in file order
+	tables := make([][]string, len(e2ePrefixes))
+	perClass := map[[2]int]int{}
+	for _, decl := range afs[1].Decls {
+		fd, ok := decl.(*ast.FuncDecl)
+		if !ok || fd.Recv != nil {
+			continue
+		}
+		pl := pluginOf(fd.Name.Name)
+		if pl < 0 || fd.Type.Params == nil || len(fd.Type.Params.List) == 0 {
+			continue
+		}
+		ts := types.ExprString(fd.Type.Params.List[0].Type)
+		ti, ok := e2eTypeIndex[ts]
+		if !ok {
+			ti = -1
+		}
+		tables[pl] = append(tables[pl], fmt.Sprintf("(%s %d)", fd.Name.Name, ti))
+		perClass[[2]int{pl, ti}]++
+		for _, rn := range p.reserved {
+			if rn == fd.Name.Name {
+				direct("c11-reserved-taken", "a generated function takes the name "+rn+" of a function the user defines and calls", "")
+			}
+		}
+	}
+	for k, n := range perClass {
+		if n > 1 {
+			direct("c11-dedup-count", fmt.Sprintf("%d functions generated for plugin %s and type %d", n, e2ePrefixes[k[0]], k[1]), "")
+		}
+	}
+	if vet {
+		v := hx.GoVet(dir, "")
+		if v.Exit != 0 {
+			direct("c11-vet", "goderive exit 0 but go vet fails on the result", v.Out)
+		}
+	}
+	if !a && !d {
+		if after, err := os.ReadFile(filepath.Join(dir, "a.go")); err == nil && string(after) != src {
+			direct("c11-rewrite-without-flag", "user source rewritten although neither flag is set", "")
+		}
+	}
+	var b strings.Builder
+	b.WriteString("(ok (" + strings.Join(names, " ") + ") (")
+	for i, t := range tables {
+		if i > 0 {
+			b.WriteByte(' ')
+		}
+		b.WriteString("(" + strings.Join(t, " ") + ")")
+	}
+	b.WriteString("))")
+	return b.String(), 1
 }
